@@ -769,7 +769,7 @@ var trickyStrings = []string{
 	"${notclosed", "a${b", "%{directive", "%{ if x }", "$${escaped", "100%", "$", "{{.request.a.postprocessor.token}}",
 	"123", "-7", "1.5", "1e3", "0x1F", "true", "false", "null", "~", "yes", "no", "on", "off", "y", "n",
 	"", " leading", "trailing ", ": colon", "- dash", "# hash", "[x]", "{x}", "a: b", "'single'", "&anchor", "*alias", "!tag", "|", ">",
-	"2001-12-14", "12:30:45", "1_000", ".inf", ".nan", "0o17", "+1",
+	"2001-12-14", "12:30:45", "1_000", ".inf", ".nan", "0o17", "+1", "ends with a break\n", "two\nlines\n", "cr\r\nlf",
 }
 
 var keyStrings = []string{"Content-Type", "x", "User Agent", "ключ", "a.b", "with space", "123", "true", "null", "k-1", "K", "k"}
